@@ -51,37 +51,68 @@ fn round_trip(k: &str, d: &str) -> Result<(), String> {
 }
 
 /// a block reference in note `d/n` to key `k` survives export with its target
-fn export_keeps_target(k: &str, d: &str, ext: &str) -> Result<(), String> {
+/// a block reference of the given form (regular / wiki / piped wiki) to note `k` in a note of directory `d`:
+/// after export (formatting) the note still holds exactly one block reference and it resolves to `k`.
+/// The input url comes from the oracle's own `rel_url`, the output is read with the oracle's own reader.
+fn export_keeps_target(k: &str, d: &str, ext: &str, form: &str) -> Result<(), String> {
+    use crate::oracle::md;
     let src_key = if d.is_empty() { "n".to_string() } else { format!("{}/n", d) };
     if src_key == k {
         return Ok(());
     }
-    let link = Key::from_file_name(k).to_rel_link_url(d);
+    let link = md::rel_url(k, d);
+    let line = match form {
+        "wiki" => format!("[[{}]]", link),
+        "wikiPiped" => format!("[[{}|t]]", link),
+        _ => format!("[t]({})", link),
+    };
     let mut state: HashMap<String, String> = HashMap::new();
-    state.insert(src_key.clone(), format!("# src\n\n[t]({})\n", link));
+    state.insert(src_key.clone(), format!("# src\n\n{}\n", line));
     state.insert(k.to_string(), "# target\n".to_string());
     let graph = Graph::import(&state, MarkdownOptions { refs_extension: ext.to_string() });
     let out = graph.to_markdown(&Key::from_file_name(&src_key));
-    // the exported reference line: [title](url)
-    let url = out
-        .lines()
-        .filter_map(|l| l.strip_prefix('[').and_then(|r| r.rsplit_once("](")).map(|(_, u)| u.trim_end_matches(')').to_string()))
-        .next()
-        .ok_or_else(|| format!("no reference line in export {:?}", out))?;
-    let back = Key::from_rel_link_url(&url, d);
-    if back.to_string() != k {
-        return Err(format!("note {:?}: reference written as {:?} resolves to {:?}, not {:?} (export {:?})", src_key, url, back.to_string(), k, out));
+    let links: Vec<_> = md::read(&out, d).links.into_iter().filter(|l| l.block_level).collect();
+    if links.len() != 1 {
+        return Err(format!("note {:?}: {} written for {:?}: the export {:?} holds {} block references", src_key, line, k, out, links.len()));
     }
-    if !out.contains("[target](") {
+    let back = md::resolve(&links[0].dest, d);
+    if back != k {
+        return Err(format!("note {:?}: reference {} written as {:?} resolves to {:?}, not {:?} (export {:?})", src_key, line, links[0].dest, back, k, out));
+    }
+    if form == "regular" && !out.contains("[target](") {
         return Err(format!("note {:?}: reference to {:?} lost its target's title (export {:?})", src_key, k, out));
+    }
+    // formatting again changes nothing
+    let mut st2 = state.clone();
+    st2.insert(src_key.clone(), out.clone());
+    let again = Graph::import(&st2, MarkdownOptions { refs_extension: ext.to_string() }).to_markdown(&Key::from_file_name(&src_key));
+    if again != out {
+        return Err(format!("note {:?}: a second export differs: {:?} then {:?}", src_key, out, again));
     }
     Ok(())
 }
 
 pub fn run(ctx: &Ctx, model: &mut Model, rep: &mut Report) {
     let thorough = ctx.thorough;
-    rep.rule = "model-vs-impl: every pair (url/key string, directory string) over a component alphabet incl. '.', '..', empty pieces and '.md' names, up to the tier's depth, for from_rel_link_url, to_rel_link_url, parent, from_file_name, is_ref_url; oracle: resolve(relative(K,D),D)=K on normal paths (exhaustive small scope + random deep/unicode pairs) and through Graph export of a block reference; non-trivial = pair with K≠'' or D≠''; distinct by text".to_string();
+    rep.rule = "model-vs-impl: every pair (url/key string, directory string) over a component alphabet incl. '.', '..', empty pieces and '.md' names, up to the tier's depth, for from_rel_link_url, to_rel_link_url, parent, from_file_name, is_ref_url; oracle: resolve(relative(K,D),D)=K on normal paths (exhaustive small scope + random deep/unicode pairs) and through Graph export of a block reference in each form (regular, wiki, piped wiki; written with the oracle's own relative-url function, re-read with the oracle's own reader; key = directory and prefix-named directories included); non-trivial = pair with K≠'' or D≠''; distinct by text".to_string();
 
+    if let Some(path) = &ctx.replay {
+        let v: serde_json::Value = serde_json::from_str(&std::fs::read_to_string(path).unwrap()).unwrap();
+        let g = |f: &str| v[f].as_str().unwrap_or("").to_string();
+        let single = match v["kind"].as_str() {
+            Some("round_trip") => Some(round_trip(&g("key"), &g("dir"))),
+            Some("export_reference") => Some(catch(|| export_keeps_target(&g("key"), &g("dir"), &g("ext"), &g("form"))).unwrap_or_else(|p| Err(format!("panic: {}", p)))),
+            _ => None,
+        };
+        if let Some(r) = single {
+            rep.evaluations += 1;
+            if let Err(e) = r {
+                rep.fail(json!({"kind": v["kind"], "key": v["key"], "dir": v["dir"], "ext": v["ext"], "form": v["form"], "what": e}));
+            }
+            return;
+        }
+        // other kinds: the whole (deterministic) run is the replay
+    }
     // ---------- correspondence: exhaustive small scope ----------
     let alpha = ["a", "b", "a.md", "..", ".", ""];
     let depth = if thorough { 3 } else { 2 };
@@ -114,9 +145,10 @@ pub fn run(ctx: &Ctx, model: &mut Model, rep: &mut Report) {
     for u in [
         "http://x", "HTTP://x", "https://x", "hTTps://x", "mailto:x", "MAILTO:x", "ftp://x", "httpx://", "http:/x", "a", "",
         "mail", "../http://x", "http", "https:/", "Http://é", "\u{212A}http://", "ma\u{130}lto:x", "x/y.md", "#frag",
+        "日本語のノート", "заметка", "abcde日本語", "abcdef日本語", "abcdefg日本語", "é", "éééé", "ééééé", "ht日本tp://x", "mailto\u{ff1a}x", "😀😀", "a😀😀b", "https://日本.jp/パス", "HTTPS://ÀÉ",
     ] {
         reqs.push(call("isRefUrl", &[hex(u)]));
-        impls.push(hex(if is_ref_url(u) { "true" } else { "false" }).replace('#', "").chars().take(0).collect::<String>() + if is_ref_url(u) { "true" } else { "false" });
+        impls.push(catch(|| if is_ref_url(u) { "true".to_string() } else { "false".to_string() }).unwrap_or_else(|e| format!("PANIC {}", e)));
         labels.push(format!("is_ref_url({:?})", u));
     }
     // random deep / unicode
@@ -202,16 +234,18 @@ pub fn run(ctx: &Ctx, model: &mut Model, rep: &mut Report) {
         }
     }
     // through the graph: export of a block reference keeps its target, both extension settings
-    let gk = strings_up_to(&["a", "b"], 2);
+    let gk = strings_up_to(&["a", "b", "a2"], 2);
     for k in gk.iter().filter(|k| !k.is_empty()) {
         for d in &gk {
             for ext in ["", ".md"] {
-                oracle_cases += 1;
-                rep.count("oracle_export_reference");
-                match catch(|| export_keeps_target(k, d, ext)) {
-                    Ok(Ok(())) => {}
-                    Ok(Err(e)) => rep.fail(json!({"kind": "export_reference", "key": k, "dir": d, "ext": ext, "what": e})),
-                    Err(p) => rep.fail(json!({"kind": "export_reference", "key": k, "dir": d, "ext": ext, "what": format!("panic: {}", p)})),
+                for form in ["regular", "wiki", "wikiPiped"] {
+                    oracle_cases += 1;
+                    rep.count(&format!("oracle_export_reference_{}", form));
+                    match catch(|| export_keeps_target(k, d, ext, form)) {
+                        Ok(Ok(())) => {}
+                        Ok(Err(e)) => rep.fail(json!({"kind": "export_reference", "key": k, "dir": d, "ext": ext, "form": form, "what": e})),
+                        Err(p) => rep.fail(json!({"kind": "export_reference", "key": k, "dir": d, "ext": ext, "form": form, "what": format!("panic: {}", p)})),
+                    }
                 }
             }
         }
